@@ -422,6 +422,28 @@ def loadsAll (k : Kind) (name : Option Str) (text : Str) : Except Err (List MolV
   | .error e => .error e
   | .ok bs => mapE (buildMol tt bt k name) bs
 
+/-- what `yield_from_mol2` stores on an atom besides the fields of `AtomV`: the formal charge taken from the
+UNITY attribute `charge` (`if chrg := a.attrib.pop("charge", None): formal_charge = int(chrg)`) and the remaining
+attributes (`atom.attrib = a.attrib`) -/
+def atomExtra (r : Rec) : Int × List (Str × Str) :=
+  let fc : Int := match dictGet r.attrib "charge".toList with
+    | some c => if c = [] then 0 else (parseInt c).getD 0
+    | none => 0
+  (fc, r.attrib.filter (fun p => p.1 ≠ "charge".toList))
+
+/-- formal charges / attributes of the atoms and attributes of the bonds of one block -/
+def blockExtras (b : Block) : List (Int × List (Str × Str)) × List (List (Str × Str)) :=
+  ((b.atoms.getD []).map atomExtra, (b.bonds.getD []).map (·.attrib))
+
+/-- `loadsAll` together with every further field the reader fills -/
+def loadsAllEx (k : Kind) (name : Option Str) (text : Str) :
+    Except Err (List (MolV × List (Int × List (Str × Str)) × List (List (Str × Str)))) :=
+  match readBlocks text with
+  | .error e => .error e
+  | .ok bs => mapE (fun b => match buildMol tt bt k name b with
+      | .ok m => .ok (m, blockExtras b)
+      | .error e => .error e) bs
+
 end build
 
 end Molli.Model.Mol2
